@@ -28,6 +28,8 @@ Section Thms.
   Variable dec_ota : blob -> option (list (N * N)).
   Variable enc_scenes : list (N * N) -> blob.
   Variable dec_scenes : blob -> option (list (N * N)).
+  Variable enc_sub : N * N -> blob.
+  Variable dec_sub : blob -> option (N * N).
 
   Hypothesis rt_fab : forall i f, dec_fab (enc_fab i f) = Some (i, f).
   Hypothesis rt_basic : forall v, dec_basic (enc_basic v) = Some v.
@@ -40,28 +42,29 @@ Section Thms.
   Hypothesis rt_icd : forall v, dec_icd (enc_icd v) = Some v.
   Hypothesis rt_ota : forall v, dec_ota (enc_ota v) = Some v.
   Hypothesis rt_scenes : forall v, dec_scenes (enc_scenes v) = Some v.
+  Hypothesis rt_sub : forall v, dec_sub (enc_sub v) = Some v.
 
   Notation state := (state blob).
   Notation kv := (kv blob).
   Notation stepf := (step blob enc_fab dec_fab enc_basic dec_basic enc_nets dec_nets enc_labels dec_labels
                           enc_binds dec_binds enc_res dec_res enc_tz dec_tz enc_tts dec_tts enc_icd dec_icd
-                          enc_ota dec_ota enc_scenes dec_scenes).
+                          enc_ota dec_ota enc_scenes dec_scenes enc_sub dec_sub).
   Notation step := (stepf true).
   Notation run := (run blob enc_fab dec_fab enc_basic dec_basic enc_nets dec_nets enc_labels dec_labels
                        enc_binds dec_binds enc_res dec_res enc_tz dec_tz enc_tts dec_tts enc_icd dec_icd
-                          enc_ota dec_ota enc_scenes dec_scenes true).
+                          enc_ota dec_ota enc_scenes dec_scenes enc_sub dec_sub true).
   Notation states := (states blob enc_fab dec_fab enc_basic dec_basic enc_nets dec_nets enc_labels dec_labels
                              enc_binds dec_binds enc_res dec_res enc_tz dec_tz enc_tts dec_tts enc_icd dec_icd
-                          enc_ota dec_ota enc_scenes dec_scenes true).
+                          enc_ota dec_ota enc_scenes dec_scenes enc_sub dec_sub true).
   Notation startup := (startup blob dec_fab dec_basic dec_nets dec_labels dec_binds enc_res dec_res
-                               dec_tz dec_tts dec_icd dec_ota dec_scenes).
+                               dec_tz dec_tts dec_icd dec_ota dec_scenes enc_sub dec_sub).
   Notation boot := (boot blob dec_fab dec_basic dec_nets dec_labels dec_binds enc_res dec_res
-                         dec_tz dec_tts dec_icd dec_ota dec_scenes).
+                         dec_tz dec_tts dec_icd dec_ota dec_scenes enc_sub dec_sub).
   Notation load_resump := (load_resump blob enc_res dec_res).
   Notation replay := (replay blob).
   Notation kvlog := (kvlog blob).
-  Notation Inv := (Inv blob enc_fab enc_basic enc_nets enc_labels enc_binds enc_res enc_tz enc_tts enc_icd enc_ota enc_scenes).
-  Notation fabric_removed := (fabric_removed blob enc_binds enc_res enc_icd enc_ota enc_scenes).
+  Notation Inv := (Inv blob enc_fab enc_basic enc_nets enc_labels enc_binds enc_res enc_tz enc_tts enc_icd enc_ota enc_scenes enc_sub).
+  Notation fabric_removed := (fabric_removed blob enc_binds enc_res enc_icd enc_ota enc_scenes enc_sub).
 
   (** ** The store of the state is the replay of the log the operation returned *)
 
@@ -69,7 +72,11 @@ Section Thms.
     forallb (fun e => match e with EKv _ => true | EAck _ => false end) (snd (fabric_removed r g)) = true.
   Proof.
     intros r g. unfold Persist.fabric_removed, Persist.drop_for.
-    destruct (amem (r_scenes r) g), (amem (r_ota r) g), (amem (r_icd r) g), (amem (r_binds r) g); reflexivity.
+    assert (Hm : forall l : list (kvop blob), forallb (fun e => match e with EKv _ => true | EAck _ => false end) (map EKv l) = true)
+      by (induction l as [|a t IH]; [reflexivity|exact IH]).
+    destruct (Nat.eqb (length (filter (fun x => negb (fst x =? g)) (r_subs r))) (length (r_subs r))),
+             (amem (r_scenes r) g), (amem (r_ota r) g), (amem (r_icd r) g), (amem (r_binds r) g);
+      cbn [snd app forallb andb]; rewrite ?forallb_app, ?Hm; reflexivity.
   Qed.
 
   Ltac opcases st :=
@@ -204,7 +211,7 @@ Section Thms.
     intros st HI.
     edestruct (startup_sync blob enc_fab dec_fab enc_basic dec_basic enc_nets dec_nets enc_labels dec_labels
                  enc_binds dec_binds enc_res dec_res enc_tz dec_tz enc_tts dec_tts enc_icd dec_icd
-                 enc_ota dec_ota enc_scenes dec_scenes)
+                 enc_ota dec_ota enc_scenes dec_scenes enc_sub dec_sub)
       as [r [ops [Hs [H1 [_ [H2 [H3 [H4 [H5 [_ [_ [_ H6]]]]]]]]]]]]; try eassumption.
     exists r. unfold Persist.boot. rewrite Hs. split; [reflexivity|]. unfold committed_view. tauto.
   Qed.
@@ -239,9 +246,11 @@ Section Thms.
     destruct t as [|b t']; [reflexivity|]. cbn [removelast forallb]. rewrite Ha. cbn [andb]. apply IH. assumption.
   Qed.
 
-  Theorem ack_after_writes : forall fx st o, ack_is_last (snd (stepf fx st o)) = true.
+  Theorem ack_after_writes : forall fx st o, (forall c v, o <> OSub c v) ->
+    ack_is_last (snd (stepf fx st o)) = true.
   Proof.
-    intros fx st o. destruct o; cbn [Persist.step]; unfold Persist.fabric_write;
+    intros fx st o Hns. destruct o; try solve [exfalso; eapply Hns; reflexivity];
+      cbn [Persist.step]; unfold Persist.fabric_write;
       opcases st; try reflexivity.
     all: cbn [snd Persist.commit];
       try (match goal with H : fabric_removed ?r ?g = (_, ?l) |- _ =>
@@ -289,13 +298,16 @@ Section Thms.
         try discriminate; try contradiction;
         match goal with H0 : In _ _ |- _ => specialize (Hev _ H0); discriminate end
       | specialize (Hev _ H); discriminate
-      | apply in_map_iff in H; destruct H as [k [E _]]; discriminate ].
+      | apply in_map_iff in H; destruct H as [k [E _]]; discriminate
+      | (* a subscribe request: the OK answer, then the table *)
+        destruct H as [H|H]; [discriminate|apply in_map_iff in H; destruct H as [k [E _]]; discriminate] ].
   Qed.
 
   (** ** Factory reset *)
   Definition writable_keys : list N :=
     map fabric_key fab_indices ++
-    [K_BASIC; K_NETS; K_LABELS; K_BIND; K_RESUMP; K_TZ; K_TTS; K_ICD_CLIENTS; K_OTA; K_SCENES].
+    [K_BASIC; K_NETS; K_LABELS; K_BIND; K_RESUMP; K_TZ; K_TTS; K_ICD_CLIENTS; K_OTA; K_SCENES] ++
+    nrange SUBS_START (N.to_nat NSUBS).
 
   Theorem reset_removes_writable : forall st k, In k writable_keys ->
     aget (s_kv (fst (step st OReset))) k = None.
@@ -303,22 +315,33 @@ Section Thms.
     intros st k Hk. cbn [Persist.step Persist.commit fst s_kv].
     rewrite (kvlog_removes blob), (aget_replay_removes blob).
     assert (H : existsb (N.eqb k) reset_keys = true); [|rewrite H; reflexivity].
-    unfold writable_keys in Hk. apply in_app_or in Hk. destruct Hk as [Hk|Hk].
-    - apply existsb_exists. exists k. split; [|apply N.eqb_refl].
-      unfold reset_keys. apply in_or_app. left. assumption.
-    - cbn [In] in Hk.
-      repeat (destruct Hk as [Hk|Hk]; [subst k; vm_compute; reflexivity|]). contradiction.
+    apply existsb_exists. exists k. split; [|apply N.eqb_refl].
+    unfold writable_keys in Hk. unfold reset_keys. rewrite !in_app_iff in *. cbn [In] in *. tauto.
   Qed.
 
   Definition singleton_keys : list N :=
     [K_BASIC; K_NETS; K_LABELS; K_BIND; K_RESUMP; K_TZ; K_TTS; K_ICD_CLIENTS; K_OTA; K_SCENES].
 
-  Lemma fabric_removed_keys : forall r g k b, In (EKv (KStore k b)) (snd (fabric_removed r g)) -> In k singleton_keys.
+  Lemma persist_subs_keys : forall l k b, In (KStore k b) (persist_subs blob enc_sub l) -> in_subs k.
+  Proof.
+    intros l k b H. pose proof (persist_subs_subop blob enc_sub l) as Hf.
+    rewrite Forall_forall in Hf. specialize (Hf _ H). cbn in Hf. tauto.
+  Qed.
+
+  Lemma fabric_removed_keys : forall r g k b, In (EKv (KStore k b)) (snd (fabric_removed r g)) ->
+    In k singleton_keys \/ in_subs k.
   Proof.
     intros r g k b. unfold Persist.fabric_removed, Persist.drop_for.
-    destruct (amem (r_scenes r) g), (amem (r_ota r) g), (amem (r_icd r) g), (amem (r_binds r) g);
-      cbn [snd app In]; intros H;
-      repeat (destruct H as [H|H]; [injection H as <- _; cbn; tauto|]); contradiction.
+    destruct (Nat.eqb (length (filter (fun x => negb (fst x =? g)) (r_subs r))) (length (r_subs r))),
+             (amem (r_scenes r) g), (amem (r_ota r) g), (amem (r_icd r) g), (amem (r_binds r) g);
+      cbn [snd]; rewrite !in_app_iff; cbn [In]; intros H;
+      repeat match goal with
+      | H : _ \/ _ |- _ => destruct H as [H|H]
+      | H : False |- _ => contradiction
+      | H : EKv (KStore _ _) = EKv (KStore _ _) |- _ => injection H as <- _; left; cbn; tauto
+      | H : In _ (map EKv _) |- _ => apply in_map_iff in H; destruct H as [x [E H]]; injection E as ->;
+                                      right; eapply persist_subs_keys; eassumption
+      end.
   Qed.
 
   Lemma in_kvlog : forall evs o, In o (kvlog evs) <-> In (EKv o) evs.
@@ -346,12 +369,30 @@ Section Thms.
     destruct (MAX_FABRICS <=? length acc)%nat; [reflexivity|]. apply IH. intros; apply H; right; assumption.
   Qed.
 
+  Lemma load_subs_ext : forall slots (m m' : kv),
+    (forall k, In k slots -> aget m' k = aget m k) ->
+    load_subs blob dec_sub slots m' = load_subs blob dec_sub slots m.
+  Proof.
+    induction slots as [|k t IH]; intros m m' H; cbn [Persist.load_subs]; [reflexivity|].
+    rewrite (H k (or_introl eq_refl)), (IH m m') by (intros; apply H; right; assumption). reflexivity.
+  Qed.
+
+  Lemma resume_subs_subop : forall (m : kv) fabs sb ops,
+    resume_subs blob enc_sub dec_sub m fabs = Some (sb, ops) -> Forall (subop blob enc_sub) ops.
+  Proof.
+    intros m fabs sb ops. unfold Persist.resume_subs.
+    destruct (load_subs blob dec_sub (nrange SUBS_START (N.to_nat NSUBS)) m) as [l|]; [|discriminate].
+    destruct (length (filter (fun x => amem fabs (fst x)) l) =? length l)%nat; intros H; injection H as <- <-.
+    - constructor.
+    - apply persist_subs_subop.
+  Qed.
+
   Local Opaque fab_indices.
   Theorem bad_cache_boots : forall st (b : blob), Inv st ->
     exists r ops,
       startup (aset (s_kv st) K_RESUMP b) = Some (r, ops) /\
       committed_view st r /\
-      (dec_res b = None -> r_resump r = [] /\ ops = [KRemove K_RESUMP]) /\
+      (dec_res b = None -> r_resump r = [] /\ In (KRemove K_RESUMP) ops) /\
       (aget (replay (aset (s_kv st) K_RESUMP b) ops) K_RESUMP = None \/
        exists l, dec_res b = Some l /\
          (aget (replay (aset (s_kv st) K_RESUMP b) ops) K_RESUMP = Some b \/
@@ -360,26 +401,37 @@ Section Thms.
     intros st b HI.
     edestruct (startup_sync blob enc_fab dec_fab enc_basic dec_basic enc_nets dec_nets enc_labels dec_labels
                  enc_binds dec_binds enc_res dec_res enc_tz dec_tz enc_tts dec_tts enc_icd dec_icd
-                 enc_ota dec_ota enc_scenes dec_scenes)
+                 enc_ota dec_ota enc_scenes dec_scenes enc_sub dec_sub)
       as [r [ops [Hs [H1 [_ [H2 [H3 [H4 [H5 [_ [_ [_ H6]]]]]]]]]]]]; try eassumption.
     set (m' := aset (s_kv st) K_RESUMP b).
     assert (Hother : forall k, k <> K_RESUMP -> aget m' k = aget (s_kv st) k)
       by (intros k Hk; apply aget_aset_other; assumption).
+    assert (Hsubs : forall fabs, resume_subs blob enc_sub dec_sub m' fabs = resume_subs blob enc_sub dec_sub (s_kv st) fabs).
+    { intros fabs. unfold Persist.resume_subs. rewrite (load_subs_ext _ (s_kv st) m'); [reflexivity|].
+      intros k Hk. apply Hother. apply in_nrange in Hk. unfold K_RESUMP, SUBS_START in *. lia. }
     unfold Persist.startup, load_opt in Hs |- *.
     rewrite (load_fabs_ext fab_indices (s_kv st) m' [])
       by (intros i Hi; apply Hother; apply in_fab_indices in Hi; rewrite fabric_key_id; unfold K_RESUMP; lia).
     rewrite !Hother
       by (unfold K_RESUMP, K_BASIC, K_NETS, K_BIND, K_LABELS, K_TZ, K_TTS, K_ICD_CLIENTS, K_OTA, K_SCENES; lia).
     destruct (load_fabs blob dec_fab fab_indices (s_kv st) []) as [fabs|]; [|discriminate].
+    rewrite Hsubs.
     destruct (match aget (s_kv st) K_BASIC with Some b0 => dec_basic b0 | None => Some basic_default end) as [bs|]; [|discriminate].
     destruct (load_resump (s_kv st) fabs) as [res0 ops0].
     destruct (load_resump m' fabs) as [res' ops'] eqn:El.
     repeat match type of Hs with
-    | match ?x with _ => _ end = Some _ => destruct x; try discriminate
+    | match ?x with _ => _ end = Some _ => destruct x eqn:?; try discriminate
+    | (let (_, _) := ?x in _) = Some _ => destruct x eqn:?
     end.
-    injection Hs as <- <-. cbn [r_fabs r_basic r_nets r_labels r_binds r_tz r_tts r_icd r_ota r_scenes] in *.
-    eexists _, ops'. split; [reflexivity|].
+    injection Hs as <- <-. cbn [r_fabs r_basic r_nets r_labels r_binds r_tz r_tts r_icd r_ota r_scenes r_subs] in *.
+    match goal with E : resume_subs _ _ _ (s_kv st) fabs = Some (?sb, ?o2) |- _ =>
+      pose proof (resume_subs_subop _ _ _ _ E) as Hsub2; rename o2 into ops2 end.
+    destruct (replay_subops blob enc_sub ops2 (replay m' ops') Hsub2) as [Hout2 _].
+    assert (Hres : aget (replay m' (ops' ++ ops2)) K_RESUMP = aget (replay m' ops') K_RESUMP).
+    { rewrite replay_app. apply Hout2. unfold in_subs, K_RESUMP, SUBS_START, NSUBS. lia. }
+    eexists _, (ops' ++ ops2). split; [reflexivity|].
     split; [unfold committed_view; cbn [r_fabs r_basic r_nets r_labels r_binds r_tz r_tts r_icd r_ota r_scenes]; tauto|].
+    rewrite Hres.
     unfold Persist.load_resump in El. unfold m' in El at 1. rewrite aget_aset_same in El.
     destruct (dec_res b) as [lr|] eqn:Ed.
     - split; [discriminate|]. right. exists lr. split; [reflexivity|].
@@ -387,13 +439,14 @@ Section Thms.
         cbn [Persist.replay fold_left kv_apply r_resump].
       + left. apply aget_aset_same.
       + right. eexists. apply aget_aset_same.
-    - injection El as <- <-. split; [intros _; split; reflexivity|].
+    - injection El as <- <-. split; [intros _; split; [reflexivity|left; reflexivity]|].
       left. cbn [Persist.replay fold_left kv_apply]. apply aget_adel_same.
   Qed.
 
-  (** every store goes to the key of a fabric in the table or to one of five singleton keys *)
+  (** every store goes to the key of a fabric in the table, to one of the singleton keys or to a
+      subscription slot *)
   Theorem store_keys : forall st o k b, In (KStore k b) (kvlog (snd (step st o))) ->
-    (exists f, k = fabric_key f /\ amem (r_fabs (s_ram st)) f = true) \/ In k singleton_keys.
+    (exists f, k = fabric_key f /\ amem (r_fabs (s_ram st)) f = true) \/ In k singleton_keys \/ in_subs k.
   Proof.
     intros st o k b. rewrite in_kvlog.
     destruct o; cbn [Persist.step]; unfold Persist.fabric_write; cbn [negb orb];
@@ -405,13 +458,23 @@ Section Thms.
       | H : EKv (KRemove _) = EKv (KStore _ _) |- _ => discriminate
       | H : EKv (KStore _ _) = EKv (KStore _ _) |- _ => injection H as <- _
       end;
-      try (right; cbn; tauto);
+      try (right; left; cbn; tauto);
       try (left; eexists; split; [reflexivity|]; apply amem_true; eexists; eassumption).
-    all: try (apply in_app_or in H; destruct H as [H|H]; [|destruct H as [H|[]]; discriminate]).
-    all: try (right; eapply fabric_removed_keys;
-              match goal with E : fabric_removed ?r ?g = (_, _) |- _ => rewrite E; cbn [snd]; eassumption end).
+    all: rewrite ?in_app_iff in H; cbn [In] in H;
+      repeat match goal with
+      | H : _ \/ _ |- _ => destruct H as [H|H]
+      | H : False |- _ => contradiction
+      | H : EAck _ = EKv _ |- _ => discriminate
+      | H : EKv (KRemove _) = EKv (KStore _ _) |- _ => discriminate
+      end.
     all: first
-      [ (* factory reset: only removes *)
+      [ (* the removal broadcast *)
+        right; eapply fabric_removed_keys;
+        match goal with E : fabric_removed ?r ?g = (_, _) |- _ => rewrite E; cbn [snd]; eassumption end
+      | (* a subscribe request / the table written back *)
+        apply in_map_iff in H; destruct H as [x [E Hin]]; injection E as ->;
+        right; right; eapply persist_subs_keys; eassumption
+      | (* factory reset: only removes *)
         apply in_map_iff in H; destruct H as [x [E _]]; discriminate
       | (* restart: what start-up itself writes *)
         apply in_map_iff in H; destruct H as [x [E Hin]]; injection E as ->;
@@ -420,17 +483,21 @@ Section Thms.
         | E : match ?x with _ => _ end = Some _ |- _ => destruct x eqn:?; try discriminate
         | E : (let (_, _) := ?x in _) = Some _ |- _ => destruct x eqn:?
         end;
-        match goal with E : Some _ = Some _ |- _ => injection E as <- <- end;
-        match goal with E : load_resump ?m ?f = (_, ?ops) |- _ =>
-          pose proof (load_resump_keys m f k b) as Hk; rewrite E in Hk; cbn [snd] in Hk; rewrite (Hk Hin) end;
-        cbn; tauto ].
+        match goal with E : Some (_, _) = Some (_, _) |- _ => injection E as <- <- end;
+        (apply in_app_or in Hin; destruct Hin as [Hin|Hin];
+        [ left; match goal with E : load_resump ?m ?f = (_, ?ops) |- _ =>
+            pose proof (load_resump_keys m f k b) as Hk; rewrite E in Hk; cbn [snd] in Hk; rewrite (Hk Hin) end;
+          cbn; tauto
+        | right; match goal with E : resume_subs _ _ _ _ _ = Some (_, _) |- _ =>
+            pose proof (resume_subs_subop _ _ _ _ E) as Hf end;
+          rewrite Forall_forall in Hf; specialize (Hf _ Hin); cbn in Hf; tauto ]) ].
   Qed.
 
   Theorem writes_only_writable_keys : forall st o k b, Inv st ->
     In (KStore k b) (kvlog (snd (step st o))) -> In k writable_keys.
   Proof.
-    intros st o k b HI H. apply store_keys in H. unfold writable_keys. apply in_or_app.
-    destruct H as [[f [-> Hm]]|H]; [left|right; exact H].
+    intros st o k b HI H. apply store_keys in H. unfold writable_keys. rewrite !in_app_iff.
+    destruct H as [[f [-> Hm]]|[H|H]]; [left|right; left; exact H|right; right; apply in_nrange; unfold in_subs in H; lia].
     apply in_map. apply in_fab_indices. apply amem_true in Hm. destruct Hm as [v Hv].
     apply aget_In_keys in Hv. eapply i_range in Hv; [|exact HI]. lia.
   Qed.
